@@ -195,7 +195,7 @@ def enum_asts(size, memo={}):
 
 
 def random_stream(ctx, count, feats=None, flagsets=None, alphabets=None, per_pattern=4, size=(1, 9),
-                  dialects=("xpath",), extra_inputs=(), groups=0.0, brefs=0.0):
+                  dialects=("xpath",), extra_inputs=(), groups=0.0, brefs=0.0, shapes=0.0):
     rng = ctx.rng
     flagsets = flagsets or ["", "i", "m", "s", "im", "ms", "is", "ims"]
     alphabets = alphabets or ["ab", "abc", "ab\n", "aAb", "ab" + ASTRAL]
@@ -204,7 +204,7 @@ def random_stream(ctx, count, feats=None, flagsets=None, alphabets=None, per_pat
         d = rng.choice(dialects)
         al = rng.choice(alphabets)
         g = gen.Gen(rng, alphabet=al, dialect=d, feats=set(feats) if feats else None)
-        ast = g.re(rng.randint(*size))
+        ast = gen.shaped(rng, al.replace("\n", "") or "ab") if (shapes and rng.random() < shapes) else g.re(rng.randint(*size))
         if groups:
             ast = gen.wrap_groups(rng, ast, groups)
         if brefs and d == "xpath":
@@ -234,7 +234,7 @@ def slice_C01(ctx):
                     tuples.append(("xpath", fl, pat, inp, "", "exhaustive"))
                     n_exh += 1
     # (b) seeded random structured patterns incl. back-references
-    for d, fl, pat, inp, ast in random_stream(ctx, ctx.n(20000, 200000)):
+    for d, fl, pat, inp, ast in random_stream(ctx, ctx.n(24000, 240000), shapes=0.3, per_pattern=5):
         tuples.append((d, fl, pat, inp, "", "random"))
     cases = mk_cases(tuples, "m")
     code, model, dis = run_slice(cases)
@@ -264,7 +264,7 @@ def slice_C02(ctx):
     feats = {"cls", "grp", "nc", "reluctant", "alt", "quant", "dot", "anchor"}
     for d, fl, pat, inp, ast in random_stream(ctx, ctx.n(15000, 150000), feats=feats,
                                               alphabets=["ab", "abc", "aab", "ab" + ASTRAL, "ab́"],
-                                              per_pattern=5):
+                                              per_pattern=5, shapes=0.25):
         tuples.append((d, fl, pat, inp, "", None))
     # overlapping alternatives / greedy vs reluctant followed by optional terms
     hand = ["a|ab", "ab|a", "(?:a|ab)(?:c|bcd)", "a*?b?", "a+?b*", "(?:ab|a)(?:b|bc)?", "a{1,2}?a", "(?:a|b)*?b",
@@ -558,6 +558,15 @@ def arbitrary_stream(ctx):
                             for _ in range(rng.randint(1, 6))))
     pats += EXTREME
     tuples = []
+    # valid structured patterns with groups and classes that contain escaped brackets / hyphens /
+    # carets, on inputs over their own alphabet (analyze and its nesting table get real work)
+    for _ in range(ctx.n(2500, 25000)):
+        al = rng.choice(["ab]", "a[b", "a-b", "a^b", "a\\b", "(a)b", "ab", "a]b["])
+        g = gen.Gen(rng, alphabet=al)
+        ast = g.fix_brefs(gen.wrap_groups(rng, g.re(rng.randint(1, 8)), 0.35))
+        p = gen.pp(ast, "xpath", rng)
+        for inp in gen.inputs_for(rng, al, 3):
+            tuples.append(("xpath", rng.choice(["", "i", "x", "s"]), p, inp, rng.choice(["$1", "-", "$0"])))
     flagpool = ["", "", "", "i", "m", "s", "x", "q", "imsx", "qi", ";", "z", "i;k", "xq", ASTRAL]
     inputs = ["", "a", "ab\n", "aab1(", ASTRAL + "a"]
     repls = ["", "$0", "$1", "\\", "$", "x$9y", "\\$"]
@@ -697,7 +706,7 @@ def slice_C07(ctx):
 def slice_C08(ctx):
     rng = ctx.rng
     tuples = []
-    for d, fl, pat, inp, ast in random_stream(ctx, ctx.n(10000, 100000), per_pattern=4,
+    for d, fl, pat, inp, ast in random_stream(ctx, ctx.n(12000, 120000), per_pattern=4, shapes=0.3,
                                               alphabets=["ab", "abc", "ab\n", "aAb", "ab1"]):
         tuples.append((d, fl, pat, inp, "[$1]"))
     # shapes that trigger each shortcut
@@ -1158,7 +1167,7 @@ def slice_C14(ctx):
     cases, pairs = [], []
     cid = 0
     for _ in range(ctx.n(2500, 25000)):
-        al = rng.choice(["ab", "abc", "ab1"])
+        al = rng.choice(["ab", "abc", "ab1", "a[b", "a]b", "a\\b", "a[]b"])
         g = gen.Gen(rng, alphabet=al)
         ast, pat = g.pattern(rng.randint(1, 9))
         if rng.random() < 0.1:
@@ -1168,6 +1177,8 @@ def slice_C14(ctx):
         for t in toks:
             if rng.random() < 0.35:
                 ws_pat += "".join(rng.choice(WS) for _ in range(rng.randint(1, 2)))
+            if len(t) >= 2 and t[0] == "\\" and not t.startswith("[") and rng.random() < 0.3:
+                t = "\\" + rng.choice(WS) + t[1:]          # whitespace after the backslash itself
             ws_pat += t
             # whitespace after a backslash belongs to the property too: "\ n" -> "\n"
         if rng.random() < 0.3:
@@ -1408,19 +1419,26 @@ def slice_C17(ctx):
 def slice_C18(ctx):
     rng = ctx.rng
     # a pool of regexes and a history of calls with interleaved, partially consumed iterators
-    pool = []
-    while len(pool) < ctx.n(12, 24):
-        g = gen.Gen(rng, alphabet=rng.choice(["ab", "abc", "aAb"]))
+    pool = []        # (dialect, flags, pattern, alphabet its inputs are drawn from)
+    while len(pool) < ctx.n(10, 20):
+        al = rng.choice(["ab", "abc", "aAb"])
+        g = gen.Gen(rng, alphabet=al)
         _, p = g.pattern(rng.randint(1, 7))
-        pool.append((rng.choice(["xpath", "xpath", "xsd"]) if "?:" not in p and "\\1" not in p else "xpath", rng.choice(["", "i", "m", "s"]), p))
-    pool += [("xpath", "", "^(?:yy|y|(?:ab|c)*d){3}$"), ("xpath", "", "(?:a|b)*c"), ("xpath", "", "\\p{IsGreek}+|\\p{IsBasicLatin}")]
+        d = "xpath"
+        pool.append((d, rng.choice(["", "i", "m", "s"]), p, al))
+    # shapes whose matching goes through the per-matcher scratch state (zero-length memo, captures,
+    # back-references) and the process-wide block table
+    pool += [("xpath", "", "^(?:yy|y|(?:ab|c)*d){3}$", "ydabc"), ("xpath", "", "(?:a|b)*c", "abc"),
+             ("xpath", "", "(?:a|bc)*x", "abcx12"), ("xpath", "", "(?:ab|c)*d", "abcd1"), ("xpath", "", "(a|b)*\\1x", "abx"),
+             ("xpath", "", "(?:a*)*b", "ab1"), ("xpath", "i", "(?:a|bb)*?c", "abcC"), ("xpath", "", "(a)|(b)\\1?c", "abc"),
+             ("xpath", "", "\\p{IsGreek}+|\\p{IsBasicLatin}", "aβγ1"), ("xsd", "", "[a-c]+", "abcx")]
     ops, expect_cases = [], []
     handles = 0
     live = []
     nops = ctx.n(1500, 15000)
     for k in range(nops):
         r = rng.randrange(len(pool))
-        inp = "".join(rng.choice("abcyd\nA") for _ in range(rng.randint(0, 6)))
+        inp = "".join(rng.choice(pool[r][3]) for _ in range(rng.randint(0, 7)))
         kind = rng.random()
         if kind < 0.25:
             ops.append(("m", r, inp))
@@ -1434,8 +1452,8 @@ def slice_C18(ctx):
             ops.append(("A", r, inp, handles))
             live.append(("a", handles, r, inp))
             handles += 1
-        elif live and kind < 0.95:
-            h = rng.choice(live)
+        elif live and kind < 0.96:
+            h = rng.choice(live[-6:])
             ops.append(("N", h[1]))
         elif live:
             h = live.pop(rng.randrange(len(live)))
@@ -1443,7 +1461,7 @@ def slice_C18(ctx):
         else:
             ops.append(("m", r, inp))
     lines = []
-    for i, (d, f, p) in enumerate(pool):
+    for i, (d, f, p, _al) in enumerate(pool):
         lines.append("\t".join(["R", str(i), d, tie.enc(f), tie.enc(p)]))
     for k, op in enumerate(ops):
         if op[0] == "m":
@@ -1469,13 +1487,13 @@ def slice_C18(ctx):
     hinfo = {}
     for k, op in enumerate(ops):
         if op[0] in ("m", "r"):
-            d, f, p = pool[op[1]]
+            d, f, p, _al = pool[op[1]]
             c = Case(cid, d, f, p, op[2], op[3] if op[0] == "r" else "", op[0])
             cases.append(c)
             where[k] = (c.cid, "M" if op[0] == "m" else "R")
             cid += 1
         elif op[0] in ("T", "A"):
-            d, f, p = pool[op[1]]
+            d, f, p, _al = pool[op[1]]
             c = Case(cid, d, f, p, op[2], "", op[0].lower())
             cases.append(c)
             hinfo[op[3]] = (c.cid, op[0], 0)
@@ -1705,7 +1723,11 @@ def slice_C20(ctx):
     while len(pairs) < target:
         al = rng.choice(["ab", "abc", "ab\n"])
         g = gen.Gen(rng, alphabet=al, feats={"cls", "grp", "nc", "alt", "quant", "dot", "anchor", "reluctant"}, max_rep=2)
-        ast, pat = g.pattern(rng.randint(1, 7))
+        if rng.random() < 0.4:
+            ast = gen.shaped(rng, al.replace("\n", ""))
+            pat = gen.pp(ast)
+        else:
+            ast, pat = g.pattern(rng.randint(1, 7))
         rw = rewrite_once(rng, ast, al)
         if rw is None:
             continue
